@@ -192,14 +192,32 @@ class Arr:
         if len(shape) == 1 and isinstance(shape[0], (tuple, list)):
             shape = tuple(shape[0])
         fl = self.flat()
-        if len(shape) == 2:
-            r, c = shape
-            if r * c != len(fl):
-                raise Undecided("reshape size mismatch")
-            return Arr([fl[i * c : (i + 1) * c] for i in range(r)])
-        if len(shape) == 1:
-            return Arr(fl)
-        raise Undecided("reshape rank")
+        shape = [num_norm(x) for x in shape]
+        if any(not isinstance(x, int) for x in shape):
+            raise Undecided("reshape with a symbolic shape")
+        if shape.count(-1) > 1:
+            raise Raised("ValueError", "can only specify one unknown dimension")
+        if -1 in shape:
+            known = 1
+            for x in shape:
+                if x != -1:
+                    known *= x
+            if known == 0 or len(fl) % known:
+                raise Raised("ValueError", f"cannot reshape array of size {len(fl)} into shape {tuple(shape)}")
+            shape[shape.index(-1)] = len(fl) // known
+        total = 1
+        for x in shape:
+            total *= x
+        if total != len(fl):
+            raise Raised("ValueError", f"cannot reshape array of size {len(fl)} into shape {tuple(shape)}")
+
+        def build(vals, dims):
+            if len(dims) == 1:
+                return list(vals)
+            step = len(vals) // dims[0] if dims[0] else 0
+            return [build(vals[i * step:(i + 1) * step], dims[1:]) for i in range(dims[0])]
+
+        return Arr(build(fl, shape)) if shape else (fl[0] if fl else 0)
 
     @property
     def T(self):
